@@ -574,6 +574,9 @@ func (e *Enc) eval(sx *Sx, env *evalEnv) tv {
 		return tv{Val{app(h, ts...), "Int"}, nil}
 	case "sarr", "ebase", "epar":
 		return tv{Val{app(h, ts...), "Ref"}, nil}
+	case "bitand", "bitor", "bitxor", "bitandnot", "shl", "shr":
+		// the uninterpreted bit operations of the prelude (the same symbols the encoder uses for & | ^ &^ << >>)
+		return tv{Val{app(h, ts...), "Int"}, nil}
 	}
 	if srt, ok := bOps[h]; ok {
 		e.needB = true
